@@ -39,3 +39,7 @@ Example C16_second_word_only :
               termfreqs_range ix 0 (Some 19) None = AExc ValueError
   | _ => False end.
 Proof. vm_compute. repeat split. Qed.
+
+(* Assumptions of the remaining named statements of this file (the gate requires one per statement). *)
+Print Assumptions C16_empty_range_gives_zeros.
+Print Assumptions C16_unaligned_bounds_rejected.
